@@ -1444,6 +1444,45 @@ class Engine:
                 else:
                     res[loc] = self.prefix_value(init[loc], '%s.%s' % (name, self.loc_name(loc)),
                                                  skey, seq.length)
+        # temporaries of the body that the code after the loop reads before assigning them again hold the values of the LAST
+        # iteration (Python semantics): the body is executed once more for the last element, from the specified state before
+        # it, only to bind them; the carried locations are then set to Spec(len) as always
+        live = self.live_out_temps(st, spec)
+        kept = {}
+        if live and not self.decide(r_cmp('==', seq.length, 0)):
+            last = r_sub(seq.length, 1)
+            one = self.decide(r_cmp('==', seq.length, 1))
+            before = {}
+            if spec.result is not None and not one:
+                # a specification with its own result function: the state before the last iteration is its result for
+                # the prefix of length len - 1
+                import types
+                pre = spec.result(self, init, types.SimpleNamespace(length=last, at=seq.at, label=getattr(seq, 'label', '')))
+            for loc in spec.carried:
+                if one:
+                    v = self.snapshot(init[loc])
+                elif spec.result is not None:
+                    v = pre[loc]
+                else:
+                    v = self.prefix_value(init[loc], '%s.%s' % (name, self.loc_name(loc)), skey, last)
+                before[loc] = v
+                self.write_loc(loc, v, env)
+            elem = seq.at(last)
+            if spec.assume is not None:
+                self.assume(spec.assume(self, last, elem))
+            if spec.inv is not None:
+                self.assume(spec.inv(self, last, {loc: self.snapshot(v) for loc, v in before.items()}))
+            self.assign(st.target, elem, env)
+            try:
+                self.exec_block(st.body, env)
+            except _Continue:
+                pass
+            except (_Break, _Return, PyRaise):
+                # this continuation is "the loop ran to completion": a last iteration that leaves abruptly contradicts it
+                # (the abrupt exits themselves are followed from the generic iteration)
+                raise PathEnd()
+            kept = {nm: env[nm] for nm in live if nm in env}
+            self.notes.append('loop %s: %s read after the loop: bound to the values of the last iteration' % (name, sorted(kept)))
         for loc in spec.carried:
             self.write_loc(loc, res[loc], env)
         for nm in extra:
@@ -1461,6 +1500,68 @@ class Engine:
         for n in ast.walk(st.target):
             if isinstance(n, ast.Name):
                 env.pop(n.id, None)
+        env.update(kept)
+
+    def live_out_temps(self, st, spec):
+        """names assigned in the body of loop `st` (not carried by its specification) that a statement after the loop, in the
+        same block, reads before assigning them again (a linear scan: loads anywhere inside a following statement count while
+        the name has not been re-assigned by a plain top-level assignment)"""
+        temps = set(n.id for n in ast.walk(ast.Module(body=st.body, type_ignores=[]))
+                    if isinstance(n, ast.Name) and isinstance(n.ctx, ast.Store) and ('local', n.id) not in spec.carried)
+        temps |= set(n.id for n in ast.walk(st.target) if isinstance(n, ast.Name))
+        if not temps:
+            return []
+        fn = self.frames[-1].get('node') if self.frames else None
+        if fn is None:
+            return []
+        block = None
+        for parent in ast.walk(fn):
+            for fld in ('body', 'orelse', 'finalbody'):
+                b = getattr(parent, fld, None)
+                if isinstance(b, list) and st in b:
+                    block = b
+        if block is None:
+            return []
+        live = set()
+        pending = set(temps)
+
+        def inner_bound(node):
+            # names bound by nested scopes of this statement (lambda parameters, comprehension targets): a load of such
+            # a name inside the statement is not a read of the loop's temporary
+            out = set()
+            for x in ast.walk(node):
+                if isinstance(x, ast.Lambda):
+                    out |= set(a.arg for a in x.args.args + x.args.kwonlyargs)
+                elif isinstance(x, ast.comprehension):
+                    out |= set(n.id for n in ast.walk(x.target) if isinstance(n, ast.Name))
+            return out
+        for nxt in block[block.index(st) + 1:]:
+            if isinstance(nxt, ast.Assign):
+                loads = [n for n in ast.walk(nxt.value) if isinstance(n, ast.Name)]
+                for t in nxt.targets:
+                    loads += [n for n in ast.walk(t) if isinstance(n, ast.Name) and isinstance(n.ctx, ast.Load)]
+            elif isinstance(nxt, ast.For):
+                # the loop target is assigned before the body reads it
+                own = set(n.id for n in ast.walk(nxt.target) if isinstance(n, ast.Name))
+                loads = [n for n in ast.walk(nxt.iter) if isinstance(n, ast.Name)]
+                for b in nxt.body + nxt.orelse:
+                    loads += [n for n in ast.walk(b) if isinstance(n, ast.Name) and isinstance(n.ctx, ast.Load) and n.id not in own]
+            else:
+                loads = [n for n in ast.walk(nxt) if isinstance(n, ast.Name) and isinstance(n.ctx, ast.Load)]
+                loads += [n for n in ast.walk(nxt) if isinstance(n, ast.Name) and isinstance(n.ctx, ast.Store)
+                          and isinstance(nxt, ast.AugAssign) and n is nxt.target]
+            shadow = inner_bound(nxt)
+            for n in loads:
+                if n.id in pending and n.id not in shadow:
+                    live.add(n.id)
+            if isinstance(nxt, ast.Assign):
+                for t in nxt.targets:
+                    for n in ([t] if isinstance(t, ast.Name) else (t.elts if isinstance(t, (ast.Tuple, ast.List)) else [])):
+                        if isinstance(n, ast.Name):
+                            pending.discard(n.id)
+            if not pending:
+                break
+        return sorted(live)
 
     def search_for(self, st, env, it, spec):
         """`for x in seq: ... if cond(x): <effects>; break` [else: ...] over an unbounded sequence.
@@ -2166,7 +2267,7 @@ class Engine:
         if isinstance(cont, dict):
             if isinstance(x, AStr) and x.is_lit():
                 return x.lit() in cont
-            return b_or(*[self.py_eq(x, k) for k in cont]) if cont else False
+            return b_or(*[self.py_eq(x, getattr(k, 'v', k) if k.__class__.__name__ == 'SymKey' else k) for k in cont]) if cont else False
         if isinstance(cont, (list, tuple)) or (isinstance(cont, SList) and cont.is_concrete()):
             items = cont.concrete() if isinstance(cont, SList) else cont
             return b_or(*[self.py_eq(x, k) for k in items]) if items else False
@@ -2646,6 +2747,13 @@ class Engine:
         v = self.eval(e.value, env) if e.value is not None else None
         self.yield_stack[-1].append(v)
         self.note_write(('yield',))
+        return None
+
+    def ev_YieldFrom(self, e, env):
+        # `yield from it` over something that can be enumerated here: the same as `for x in it: yield x`
+        for v in self.iter_concrete(self.eval(e.value, env)):
+            self.yield_stack[-1].append(v)
+            self.note_write(('yield',))
         return None
 
     def ev_JoinedStr(self, e, env):
